@@ -16,8 +16,13 @@ INCS := -I$(B)/gen -I$(REPO)/inc -I/usr/include/hdf5/serial -Isim
 
 ifeq ($(V),asan)
 CXX      := clang++
-CXXFLAGS := -std=c++14 -O1 -g -DNDEBUG -w -fsanitize=address,undefined -fno-sanitize-recover=undefined -fno-omit-frame-pointer
+CXXFLAGS := -std=c++14 -O1 -g -DNDEBUG -w -fsanitize=address,undefined -fno-sanitize=float-cast-overflow -fno-sanitize-recover=undefined -fno-omit-frame-pointer
 LDSAN    := -fsanitize=address,undefined
+else ifeq ($(V),vg)
+# for valgrind: no -march=native (valgrind 3.19 does not know all AVX-512 instructions)
+CXX      := g++
+CXXFLAGS := -std=c++14 -fext-numeric-literals -O1 -g -DNDEBUG -w
+LDSAN    :=
 else
 CXX      := g++
 CXXFLAGS := -std=c++14 -fext-numeric-literals -O2 -g1 -DNDEBUG -w -march=native
